@@ -6,6 +6,7 @@
 //! printed); 2 inconclusive (coverage floor missed or harness error; an `INCONCLUSIVE` line was printed).
 
 mod doubles;
+mod exitprobe;
 mod refs;
 mod refctl;
 mod refsign;
@@ -125,6 +126,15 @@ fn util_clip(s: &str, n: usize) -> String {
 }
 
 fn dispatch(ctx: &Ctx) -> Outcome {
+    let mut out = dispatch_inner(ctx);
+    if ["C01", "C03", "C04", "C05", "C06", "C07", "C08", "C09", "C10", "C11", "C12", "C13", "C14", "C15", "C19"].contains(&ctx.prop.as_str()) && out.report.violations.is_empty() {
+        let n = out.report.get("thread_exit_probes_ok");
+        out.floors.push(util::floor("the group's small workload run from a thread-local destructor while a thread exits, in both orders of first use, equal to the same calls on an ordinary thread", n == 2, n));
+    }
+    out
+}
+
+fn dispatch_inner(ctx: &Ctx) -> Outcome {
     match ctx.prop.as_str() {
         "C01" => c01::run(ctx),
         "C02" => c02::run(ctx),
